@@ -647,52 +647,52 @@ class Fn:
                 out.append((b, keep, lose))
         return out
 
-    def enclosing_loop_heads(self, b):
-        """blocks of Iterator::next calls that dominate b and are reachable again from b (loop heads around b)"""
-        heads = []
-        for c in self.calls:
-            if c.name == "next" and c.bb in self.dom[b] and c.bb != b:
-                # reachable from b?
-                seen = {b}
-                dq = deque([b])
-                hit = False
-                while dq and not hit:
-                    x = dq.popleft()
-                    for y in self.succ[x]:
-                        if y == c.bb:
-                            hit = True
-                            break
-                        if y not in seen:
-                            seen.add(y)
-                            dq.append(y)
-                if hit:
-                    heads.append(c.bb)
-        return heads
-
-    def natural_loop_heads(self, b):
-        """headers of the natural loops that contain b (any loop form, not only iterator loops): for a back edge u -> h (h dominates u) the loop
-        is h plus every block that reaches u without passing through h"""
+    def _natural_loops(self):
+        """[(header, body)] for every back edge u -> h (h dominates u): h plus the blocks that reach u without passing through h"""
+        if getattr(self, "_nl", None) is not None:
+            return self._nl
         n = len(self.succ)
         pred = [[] for _ in range(n)]
         for u in range(n):
             for v in self.succ[u]:
                 pred[v].append(u)
-        out = []
+        loops = {}
         for u in range(n):
             for h in self.succ[u]:
                 if h not in self.dom[u]:
                     continue
-                body = {h, u}
-                work = [u] if u != h else []
+                body = loops.setdefault(h, {h})
+                work = []
+                if u not in body:
+                    body.add(u)
+                    work.append(u)
                 while work:
                     x = work.pop()
                     for y in pred[x]:
                         if y not in body:
                             body.add(y)
                             work.append(y)
-                if b in body and h not in out:
-                    out.append(h)
-        return sorted(out)
+        self._nl = sorted(loops.items())
+        return self._nl
+
+    def enclosing_loop_heads(self, b):
+        """blocks of the Iterator::next calls that drive a loop around b: the call dominates b and b lies in the innermost natural loop that
+        contains the call (a block after an inner loop is not inside it, although the inner `next` dominates it and is reached again through
+        the outer loop)"""
+        heads = []
+        for c in self.calls:
+            if c.name == "next" and c.bb in self.dom[b] and c.bb != b:
+                own = [body for (h, body) in self._natural_loops() if c.bb in body]
+                if not own:
+                    continue
+                inner = min(own, key=len)
+                if b in inner:
+                    heads.append(c.bb)
+        return heads
+
+    def natural_loop_heads(self, b):
+        """headers of the natural loops that contain b (any loop form, not only iterator loops)"""
+        return sorted(h for (h, body) in self._natural_loops() if b in body)
 
     def filters_in_iteration(self, effect):
         """filter_branches restricted to one iteration of the innermost loop around `effect` (or the whole body if none)"""
